@@ -185,6 +185,9 @@ func (pool *TransactionsPool) addTransaction(transaction *ledger.Transaction) er
 	if err != nil {
 		return fmt.Errorf("failed to verify fee: %w", err)
 	}
+	if err = utxoManagerCopy.UpdateUtxos([]*ledger.Transaction{transaction}, nextBlockTimestamp); err != nil {
+		return fmt.Errorf("failed to update UTXOs: %w", err)
+	}
 	pool.mutex.Lock()
 	defer pool.mutex.Unlock()
 	pool.transactions = append(pool.transactions, transaction)
